@@ -107,7 +107,13 @@ func (n *Net) Close() {
 		s.Stop()
 	}
 	pb.VerifResetGrpcClients()
-	pb.VerifDialOptions = nil
+	// SUT goroutines that outlive the run (reconnect loops) must not reach the real network nor the next
+	// run's network: until the next NewNet every dial fails at once
+	pb.VerifDialOptions = func(address string) []grpc.DialOption {
+		return []grpc.DialOption{grpc.WithContextDialer(func(ctx context.Context, addr string) (net.Conn, error) {
+			return nil, errors.New("simulated network is gone")
+		})}
+	}
 	currentNet = nil
 }
 
